@@ -134,6 +134,7 @@ def definitely_raises(stmts):
 
 
 class BTr(pyarith.Tr):
+    SEP = '_'                                     # record entry R['k'] is the local R<SEP>k
     def __init__(self, params, consts=None, helpers=None, externs=None, record=None, fields=None):
         super().__init__({})
         self.env = {n: t for n, t in params}      # variable -> stored type
@@ -208,7 +209,7 @@ class BTr(pyarith.Tr):
                 and self.record is not None):
             if not (isinstance(e.slice, ast.Constant) and isinstance(e.slice.value, str) and e.slice.value.isidentifier()):
                 raise Untranslatable('record subscript is not a constant key')
-            return f'{self.record}_{e.slice.value}'
+            return f'{self.record}{self.SEP}{e.slice.value}'
         return None
 
     # ---- expressions
@@ -493,7 +494,7 @@ class BTr(pyarith.Tr):
         return self.wrap(pre, f'let {lname(name)} : {t} := {v}\n{self.block(rest, kont)}')
 
     def record_init(self, s, rest, kont):
-        if any(k.startswith(self.record + '_') for k in self.env):
+        if any(k.startswith(self.record + self.SEP) for k in self.env):
             raise Untranslatable(f'{self.record} is bound twice')
         d = s.value
         if not (isinstance(d, ast.Dict) and all(isinstance(k, ast.Constant) and isinstance(k.value, str) and k.value.isidentifier()
@@ -506,7 +507,7 @@ class BTr(pyarith.Tr):
         for k, val in zip(d.keys, d.values):
             v, t = self.stored(self.expr(val))
             p = self.take_pre()
-            name = f'{self.record}_{k.value}'
+            name = f'{self.record}{self.SEP}{k.value}'
             if p and p[-1][0] == 'bind' and p[-1][1] == v:
                 items.append(p[:-1] + [('bind', name, p[-1][2])])
                 items.append(None)
@@ -578,7 +579,7 @@ class BTr(pyarith.Tr):
             raise Untranslatable('the function does not end in `return <record>`')
         items = []
         for key, kind in self.fields:
-            name = f'{self.record}_{key}'
+            name = f'{self.record}{self.SEP}{key}'
             t = self.env.get(name)
             if t is None or t == POISON:
                 raise Untranslatable(f'result field {key} is not set (or has different types) on all paths')
